@@ -41,6 +41,7 @@ ASSUMPTIONS = [
     "for fluent nodes the theorem C10_fluent_yield_binding derives list order = coordinate order from the zero-padded names",
     "Memory is modelled as far as runner.run uses it (local[id] = value, provide = lookup); shm publication, serde and cloudpickle of the callable are not modelled",
     "graph traversal / serialise is the model of Graph/GStore.v + Graph/Export.v (C12); pydantic validation of JobInstance / Task2TaskEdge is not modelled",
+    "a generator (inspect.isgenerator) is distinguished from other iterables by the `gen` flag of Iter; recorder behaviours gen/genlen are generators, tuple is not",
     "sink_input_ps is a natural number (negative positions of hand-written edges are outside the model)",
 ]
 
@@ -50,7 +51,7 @@ Import ListNotations.
 Open Scope string_scope.
 """
 
-SIG_SINGLE_YIELD = "single-coordinate-yields-stores-generator-object"
+# (the former finding single-coordinate-yields-stores-generator-object is fixed by 62ec2b5: a generator is iterated also for a single output)
 
 # ------------------------------------------------------------------------------ values
 LITS = ["0", "1", "-5", "2.5", "True", "b'x'", "(1, 2)", "[1, 2]", "{'k': 1}", "7", "''"]
@@ -128,6 +129,19 @@ def make_callable(fid, beh):
                     yield 1000 * (fid + 1) + i
                 if fin is not None:
                     raise getattr(b, fin)("c10")
+            r = g()
+            b._c10_rets.append((fid, r))
+            return r
+    elif kind == "genlen":
+        # a parametrised generator: as many values as it received positional arguments
+        def f(*args, **kwargs):
+            import builtins as b
+            b._c10_log.append((fid, args, kwargs))
+            n = len(args)
+
+            def g():
+                for i in range(n):
+                    yield 1000 * (fid + 1) + i
             r = g()
             b._c10_rets.append((fid, r))
             return r
@@ -254,6 +268,48 @@ def gen_graph_spec(rng, flavour):
             "publish_seed": rng.randrange(2**32)}
 
 
+def gen_shared_spec(rng):
+    """hand-built graph in which several nodes carry the SAME callable object, with outputs declared per node
+    (a parametrised generator used with different output counts / names, a function used with and without a named output)"""
+    npool = rng.choice([1, 2, 2, 3])
+    behs = {}
+    for f in range(npool):
+        behs[f] = rng.choice([["ret"], ["genlen"], ["genlen"], ["gen", rng.choice([2, 3]), None], ["tuple", 2]])
+    fkw = {f: rng.sample(KW_NAMES, rng.choice([0, 0, 1])) for f in range(npool)}
+    letters = ["a", "b", "c", "d", "e", "f", "g", "h", "i", "j", "k", "l", "m", "n", "o"]
+    n = rng.choice([2, 3, 4, 5, 6])
+    nodes = []
+    for i in range(n):
+        fid = rng.randrange(npool)
+        inputs = []
+        if i > 0:
+            for iname in rng.sample(INPUT_NAMES, rng.choice([0, 1, 1, 2])):
+                p = rng.randrange(i)
+                avail = ["0"] if nodes[p]["outputs"] is None else list(nodes[p]["outputs"])
+                if avail:
+                    inputs.append([iname, p, rng.choice(avail)])
+        args = [["str", iname] for iname, _, _ in inputs]
+        for _ in range(rng.choice([0, 1, 2, 3, 11]) if behs[fid][0] == "genlen" else rng.choice([0, 1, 2])):
+            args.append(["lit", rng.randrange(len(LITS) - 1)])
+        rng.shuffle(args)
+        kwnames = fkw[fid] if rng.random() < 0.85 else rng.sample(KW_NAMES, 1)
+        kwargs = [[k, gen_val(rng)] for k in kwnames]
+        b = behs[fid]
+        k = len(args) if b[0] == "genlen" else b[1] if b[0] in ("gen", "tuple") else 1
+        if rng.random() < 0.1:
+            k = max(1, k + rng.choice([-1, 1]))
+        if k <= 1 or (b[0] != "genlen" and rng.random() < 0.3):
+            outs = rng.choice([None, None, ["x"], ["out"], ["0"]])
+        else:
+            outs = rng.choice([numeric_outs(k, True), letters[:k], list(reversed(letters[:k])), numeric_outs(k, True)])
+        nodes.append({"name": f"n{i}", "outputs": outs, "payload": {"kind": "tuple", "fid": fid, "args": args, "kwargs": kwargs}, "inputs": inputs})
+    consumed = {p for nd in nodes for _, p, _ in nd["inputs"]}
+    sinks = [i for i in range(n) if i not in consumed]
+    rng.shuffle(sinks)
+    return {"kind": "graph", "flavour": "shared-callable", "nodes": nodes, "sinks": sinks, "behs": {str(k): v for k, v in behs.items()},
+            "publish_seed": rng.randrange(2**32)}
+
+
 def build_graph(spec):
     """spec -> (real Graph, list of real Node objects by spec index, fid -> callable)"""
     from earthkit.workflows.graph import Graph, Node
@@ -265,8 +321,9 @@ def build_graph(spec):
         elif p["kind"] == "other":
             payload = "not-a-tuple"
         else:
-            f = make_callable(p["fid"], spec["behs"][str(p["fid"])])
-            funcs[p["fid"]] = f
+            if p["fid"] not in funcs:     # nodes with the same fid carry the very same callable object
+                funcs[p["fid"]] = make_callable(p["fid"], spec["behs"][str(p["fid"])])
+            f = funcs[p["fid"]]
             payload = (f, [realise_val(a) for a in p["args"]], {k: realise_val(v) for k, v in p["kwargs"]})
         node = Node(nd["name"], None if nd["outputs"] is None else list(nd["outputs"]), payload)
         for iname, pi, oname in nd["inputs"]:      # set through .inputs: any input name is expressible
@@ -402,6 +459,11 @@ def run_job(job, publish_seed, order=None):
 
 
 # ------------------------------------------------------------------------------ oracle
+def eff_beh(beh, d):
+    """behaviour of the callable on this node: genlen yields one value per positional argument"""
+    return ["gen", len(d["payload"]["args"]), None] if beh[0] == "genlen" else beh
+
+
 def oracle_graph(descs, sinks, fluent_coords, behs, lowered, obs, fails, single=()):
     """direct reading of the property.  descs: the graph as the author declared it (reachable nodes,
     parents first); fluent_coords: {(node name, output name): coordinate index} for fluent multi-output
@@ -469,7 +531,7 @@ def oracle_graph(descs, sinks, fluent_coords, behs, lowered, obs, fails, single=
     value = {}        # (name, output) -> canonical value
     for d in descs:
         fid = d["payload"]["fid"]
-        beh = behs[str(fid)]
+        beh = eff_beh(behs[str(fid)], d)
         outs = outs_of(d)
         ok_inputs = all(succeeds[descs[p]["name"]] for _, p, _ in d["inputs"])
         if not ok_inputs:
@@ -477,7 +539,8 @@ def oracle_graph(descs, sinks, fluent_coords, behs, lowered, obs, fails, single=
             continue
         if beh[0] == "raise":
             succeeds[d["name"]] = False
-        elif len(outs) == 1 and d["name"] not in single:
+        elif len(outs) == 1 and beh[0] != "gen":
+            # a single output and no generator: the returned object is the value
             succeeds[d["name"]] = True
             value[(d["name"], outs[0])] = ["ret", fid]
         else:
@@ -498,12 +561,12 @@ def oracle_graph(descs, sinks, fluent_coords, behs, lowered, obs, fails, single=
             fails.append(("task-not-runnable", f"task {d['name']} could not be prepared/run: {r}"))
             continue
         fid = d["payload"]["fid"]
-        beh = behs[str(fid)]
+        beh = eff_beh(behs[str(fid)], d)
         outs = outs_of(d)
         if not all(succeeds[descs[p]["name"]] for _, p, _ in d["inputs"]):
             continue        # an upstream node has no value: nothing is claimed
         n0 = len(fails)
-        declared_gen = len(outs) >= 2 or d["name"] in single
+        declared_gen = len(outs) >= 2 or beh[0] == "gen"      # a generator yields its outputs, also a single one
         inames = {iname: (descs[p]["name"], o) for iname, p, o in d["inputs"]}
         exp_args = [value[inames[a[1]]] if (a[0] == "str" and a[1] in inames) else a for a in d["payload"]["args"]]
         exp_kwargs = d["payload"]["kwargs"]
@@ -531,9 +594,6 @@ def oracle_graph(descs, sinks, fluent_coords, behs, lowered, obs, fails, single=
             flags = [lasts.get((t, o)) for t, o, _, _ in r["handled"]]
             if flags[-1] != ["ok", True] or any(f != ["ok", False] for f in flags[:-1]):
                 fails.append(("last-output-inconsistent", f"task {d['name']}: handled in order {[o for _, o, _, _ in r['handled']]}, is_last_output_of says {flags}"))
-        if d["name"] in single or any(descs[p]["name"] in single for _, p, _ in d["inputs"]):
-            # fluent yields with ONE coordinate: the node has a single default output, the runner stores the generator object itself
-            fails[n0:] = [(SIG_SINGLE_YIELD, w) for _, w in fails[n0:]]
 
 
 # ------------------------------------------------------------------------------ Coq terms
@@ -601,6 +661,8 @@ def cbeh(b):
         return "BRet"
     if b[0] == "raise":
         return f"(BRaise {cstr(b[1])})"
+    if b[0] == "genlen":
+        return "BGenLen"
     if b[0] == "gen":
         return f"(BGen {cnat(b[1])} {copt(b[2], cstr)})"
     return f"(BTuple {cnat(b[1])})"
@@ -671,8 +733,12 @@ def gen_fluent_spec(rng):
         kwargs = [[k, gen_val(rng)] for k in rng.sample(KW_NAMES, rng.choice([0, 0, 1]))]
         wide = (ny or 1) * nsrc * max([s["yields"] or 1 for s in steps] + [1]) > 6
         steps.append({"args": args, "kwargs": kwargs, "yields": None if wide else rng.choice([None, None, 2, 3, 11, 12])})
+    # a second map over the sources with the SAME callable as the first step but other yields (a parametrised generator)
+    branch = None
+    if (ny or 1) * nsrc <= 6 and rng.random() < 0.5:
+        branch = {"nlits": rng.choice([1, 2, 4, 11]), "first": rng.choice([None, 1, 2])}
     return {"kind": "fluent", "nsrc": nsrc, "src_yields": ny, "steps": steps, "publish_seed": rng.randrange(2**32), "mismatch": rng.random() < 0.15,
-            "mseed": rng.randrange(2**32)}
+            "mseed": rng.randrange(2**32), "branch": branch}
 
 
 def build_fluent(spec):
@@ -715,6 +781,22 @@ def build_fluent(spec):
     y = None if ny is None else ("yd0", list(range(ny)))
     action = fluent.from_source(srcs, yields=y, dims=["s"])
     note(action, ny)
+    sinks = []
+    if spec.get("branch"):
+        # one generator callable (yields one value per positional argument) mapped twice over the sources:
+        # with `first` static arguments (+ the input) and with `nlits` static arguments (+ the input)
+        br = spec["branch"]
+        f = make_callable(fid[0], ["genlen"])
+        behs[str(fid[0])] = ["genlen"]
+        fid[0] += 1
+        for bi, nl in enumerate([br["first"], br["nlits"]]):
+            if nl is None or (bi == 0 and nl == br["nlits"]):
+                continue
+            pay = fluent.Payload(f, [POOL[1]] * nl)
+            ba = action.map(pay, yields=(f"yb{bi}", list(range(nl + 1))))
+            note(ba, nl + 1)
+            ba = ba.map(fluent.Payload(mk(None)))
+            sinks += list(ba.graph().sinks)
     for si, st in enumerate(spec["steps"]):
         ny = st["yields"]
         shape = action.nodes.shape
@@ -724,7 +806,11 @@ def build_fluent(spec):
         y = None if ny is None else (f"yd{si + 1}", list(range(ny)))
         action = action.map(pl, yields=y)
         note(action, ny)
-    return action.graph(), behs, coords, single
+    g = action.graph()
+    if sinks:
+        from earthkit.workflows.graph import Graph
+        g = Graph(list(dict.fromkeys(list(g.sinks) + sinks)))
+    return g, behs, coords, single
 
 
 def gen_fnode_case(rng):
@@ -832,10 +918,11 @@ def oracle_job(spec, obs, fails):
         outs = sorted(set(t["oschema"]))
         beh = spec["behs"][str(t["fid"])]
         if r["exn"] is None:
-            if len(outs) >= 2 and beh[0] in ("gen", "tuple") and beh[1] != len(outs):
+            unpack = len(outs) >= 2 or (len(outs) == 1 and beh[0] == "gen")
+            if unpack and beh[0] in ("gen", "tuple") and beh[1] != len(outs):
                 fails.append(("count-mismatch-ignored", f"task {r['task']}: {beh[1]} results for {len(outs)} declared outputs, run returned normally"))
             got = [(o, v) for _, o, v, _ in r["handled"]]
-            if len(outs) >= 2 and beh[0] in ("gen", "tuple") and beh[1] == len(outs):
+            if unpack and beh[0] in ("gen", "tuple") and beh[1] == len(outs):
                 exp = [(o, ["yield", t["fid"], i]) for i, o in enumerate(outs)]
                 if got != exp:
                     fails.append(("output-binding", f"task {r['task']}: stored {got}, contract (key-sorted = yield order) {exp}"))
@@ -877,13 +964,8 @@ def run_spec(spec):
 
 
 def classify(spec, fails, info, listed, res):
-    """report failures; the single-coordinate finding goes under its own signature and only when listed"""
+    """report failures"""
     for sig, what in fails:
-        if sig == SIG_SINGLE_YIELD:
-            res.count("known-signature:" + SIG_SINGLE_YIELD)
-            if SIG_SINGLE_YIELD in listed:
-                res.fail(SIG_SINGLE_YIELD, what, stored(spec))
-            continue
         res.fail(sig, what, stored(spec))
 
 
@@ -903,6 +985,7 @@ def gen_specs(ctx, rng):
     specs = list(WITNESSES)
     for fl, n in (("plain", ctx.n(110, 5000)), ("odd", ctx.n(100, 4000)), ("mismatch", ctx.n(80, 3000)), ("many-outputs", ctx.n(30, 1000))):
         specs += [gen_graph_spec(rng, fl) for _ in range(n)]
+    specs += [gen_shared_spec(rng) for _ in range(ctx.n(90, 3000))]
     specs += [gen_fluent_spec(rng) for _ in range(ctx.n(40, 1200))]
     specs += [gen_job_spec(rng) for _ in range(ctx.n(100, 4000))]
     specs += [{"kind": "fnode", **gen_fnode_case(rng)} for _ in range(ctx.n(60, 2000))]
@@ -972,7 +1055,7 @@ def search(ctx, res):
     rng = ctx.sub_rng("search")
     listed = {f["signature"] for f in load_findings().get("open", []) if f.get("property") == "C10"}
     for i in range(2000):
-        spec = [gen_graph_spec(rng, "plain"), gen_graph_spec(rng, "many-outputs"), gen_fluent_spec(rng), gen_graph_spec(rng, "mismatch")][i % 4]
+        spec = [gen_graph_spec(rng, "plain"), gen_shared_spec(rng), gen_fluent_spec(rng), gen_graph_spec(rng, "mismatch"), gen_graph_spec(rng, "many-outputs")][i % 5]
         try:
             _, _, fails, info = run_spec(spec)
         except Exception as e:
